@@ -129,12 +129,17 @@ def check(case) -> Outcome:
     nontrivial = False
     skipped_before = bool(q_idx) and any(not qualifies[j] for j in range(q_idx[-1]))
 
-    if case["vars"][0]["decl"] == "let":
-        v = let(CLASSES["Ent"], domain=it)
-    else:
-        with symbolic_mode():
-            v = CLASSES["Ent"](From(it))
-    built = build_over([v], case)
+    try:
+        if case["vars"][0]["decl"] == "let":
+            v = let(CLASSES["Ent"], domain=it)
+        else:
+            with symbolic_mode():
+                v = CLASSES["Ent"](From(it))
+        built = build_over([v], case)
+    except InjectedFault as e:
+        # the source was asked for an element (and refused) while the query was only being BUILT
+        return fail("work_before_demand", f"declaring the variable / building the query pulled from the domain iterator: {e}",
+                    classes=classes, features=feats)
     if it.log:
         return fail("work_before_demand", f"building the query pulled {it.log} from the domain iterator", classes=classes,
                     features=feats)
